@@ -54,6 +54,8 @@ class SYS(Prop):
                  invariants=["StepInv"], constraint="Bound", view="ViewSt", timeout=1500),
             dict(name="sys_mc_ddl", module="FsSystemGen", consts=dict(c, Feat={"ddl"}, Depth=d),
                  invariants=["StepInv"], constraint="Bound", view="ViewSt", timeout=1500),
+            dict(name="sys_mc_persist", module="FsSystemGen", consts=dict(c, Feat={"ddl", "persist"}, Depth=d),
+                 invariants=["StepInv"], constraint="Bound", view="ViewSt", timeout=1500),
             dict(name="sys_mc_all", module="FsSystemGen", consts=dict(c, Feat={"cur", "ddl", "dml2"}, Depth=d),
                  invariants=["StepInv"], constraint="Bound", view="ViewSt", timeout=1500),
         ]
@@ -70,6 +72,8 @@ class SYS(Prop):
                  consts=dict(base, ScriptsUsed=False, TgtUsed={"u"}, Feat=set(), MaxFails=1, Depth=3)),
             dict(name="sys_paths_feat", module="FsSystemGen", mode="paths", sample=20000 if big else 800,
                  consts=dict(base, ScriptsUsed=False, TgtUsed={"u"}, MaxFails=1, Depth=3)),
+            dict(name="sys_walks_persist", module="FsSystemGen", mode="walks", depth=18, num=2000 if big else 150, seed_offset=5,
+                 consts=dict(base, Feat={"cur", "ddl", "dml2", "persist"}, Depth=18)),
         ]
 
     def nontrivial(self, ops):
@@ -97,18 +101,31 @@ class SYS(Prop):
         _N += 1
         phys = {"S1": f"A{_N}", "S2": f"B{_N}"}
         back = {v: k for k, v in phys.items()}
+        persist = any(o.get("k") == "restart" for o in ops)
+        pdir = None
+        if persist:
+            # an instance of its own that keeps its databases under a db_path (C18): "restart" shuts it down and opens it again
+            import tempfile
+
+            pdir = tempfile.mkdtemp(prefix="vt_sys_")
+            fs = fakesnow.instance.FakeSnow(db_path=pdir, nop_regexes=[NOP_PATTERN])
         setup = fs.connect("DB1", phys["S1"])
         sc = setup.cursor()
         sc.execute(f"create schema if not exists DB1.{phys['S2']}")
         for p in phys.values():
             sc.execute(f"create table DB1.{p}.t (v int)")
-        if http:
-            conns = {c: srv.connect("shared", "DB1", phys["S1"]) for c in ("c1", "c2")}
-        else:
-            conns = {c: fs.connect("DB1", phys["S1"]) for c in ("c1", "c2")}
-        longcur = {c: conns[c].cursor() for c in conns}
-        rescur = {c: conns[c].cursor() for c in conns}       # holds the open result of "sel"; used for nothing else
-        probe = {c: conns[c].cursor() for c in conns}
+        if persist:
+            setup.close()
+        conns, longcur, rescur, probe = {}, {}, {}, {}
+
+        def open_sessions():
+            for c in ("c1", "c2"):
+                conns[c] = srv.connect("shared", "DB1", phys["S1"]) if http else fs.connect("DB1", phys["S1"])
+                longcur[c] = conns[c].cursor()
+                rescur[c] = conns[c].cursor()       # holds the open result of "sel"; used for nothing else
+                probe[c] = conns[c].cursor()
+
+        open_sessions()
 
         def sql_of(a, bound):
             """SQL text (and parameters) of a single statement"""
@@ -200,7 +217,7 @@ class SYS(Prop):
                 op["how"] = rng.choice(("x", "s", "b"))
             elif op["k"] in ("upd", "ins2"):
                 op["run"] = rng.choice(("x", "s", "b"))
-            elif op["k"] in ("sel", "fetch"):
+            elif op["k"] in ("sel", "fetch", "restart"):
                 pass
             elif op["k"] not in ("script", "descr", "begin", "commit", "rollback"):
                 op["how"] = rng.choice(("x", "x", "s"))
@@ -209,7 +226,14 @@ class SYS(Prop):
             conn = conns[c]
             res, got = [], []
             try:
-                if k == "sel":
+                if k == "restart":
+                    for cn in conns.values():
+                        cn.close()
+                    fs.duck_conn.close()
+                    fs = fakesnow.instance.FakeSnow(db_path=pdir, nop_regexes=[NOP_PATTERN])
+                    open_sessions()
+                    res = ["ok"]
+                elif k == "sel":
                     cur = rescur[c]
                     cur.execute(sql_of(op, False)[0])
                     res = [f"count:{cur.rowcount}"]
@@ -264,6 +288,17 @@ class SYS(Prop):
                     cn.close()
                 except Exception:
                     pass
+        if persist:
+            import shutil
+
+            for cn in conns.values():
+                try:
+                    cn.close()
+                except Exception:
+                    pass
+            fs.duck_conn.close()
+            shutil.rmtree(pdir, ignore_errors=True)
+            return ev
         for p in phys.values():
             fs.duck_conn.cursor().execute(f"drop schema if exists DB1.{p} cascade")
         return ev
